@@ -188,10 +188,10 @@ func (cp *FreeList) ToGC() (string, error) {
 		return workFilePath, nil
 	}
 
-	_, err = cp.Flush()
-	if err != nil {
-		return "", err
-	}
+	// Entries that are still in the pool are not handed over: they are
+	// written by the next Flush, which the store issues only after the primary
+	// and the index have been flushed. Handing them to GC earlier would let GC
+	// destroy records that the index on disk still refers to.
 
 	cp.flushLock.Lock()
 	defer cp.flushLock.Unlock()
